@@ -3,6 +3,7 @@ package main
 import (
 	"fmt"
 	"go/token"
+	"go/types"
 	"os"
 	"strings"
 
@@ -15,6 +16,21 @@ func init() {
 		p := c.Prog("amd64")
 		if os.Getenv("DBGRMW") != "" {
 			surveyRMW(p)
+		}
+		if os.Getenv("DBGSHP") != "" {
+			surveySharedPtr(p)
+		}
+		if os.Getenv("DBGCODEC") != "" {
+			surveyCodec(p)
+		}
+		if os.Getenv("DBGREADER") != "" {
+			surveyReader(p)
+		}
+		if os.Getenv("DBGALIASU") != "" {
+			surveyAliasUnsafe(p, strings.Split(os.Getenv("DBGALIASU"), ","))
+		}
+		if os.Getenv("DBGERRDROP") != "" {
+			surveyErrDrop(p)
 		}
 		if os.Getenv("DBGOVW") != "" {
 			surveyOverwritten(p)
@@ -350,4 +366,115 @@ func surveyRMW(p *Program) {
 			}
 		}
 	}
+}
+
+// surveySharedPtr: methods that return a pointer held in a field of their receiver.
+func surveySharedPtr(p *Program) {
+	mod := p.Mod()
+	for f := range p.AllFuncs {
+		if f.Blocks == nil || !isCirclFunc(f) || f.Synthetic != "" || f.Signature.Recv() == nil || len(f.Params) == 0 {
+			continue
+		}
+		for _, b := range f.Blocks {
+			ret, ok := b.Instrs[len(b.Instrs)-1].(*ssa.Return)
+			if !ok {
+				continue
+			}
+			for _, r := range ret.Results {
+				v := r
+				if mi, ok := v.(*ssa.MakeInterface); ok {
+					v = mi.X
+				}
+				ld, ok := v.(*ssa.UnOp)
+				if !ok || ld.Op != token.MUL {
+					continue
+				}
+				fa, ok := ld.X.(*ssa.FieldAddr)
+				if !ok || fa.X != ssa.Value(f.Params[0]) {
+					continue
+				}
+				pt, ok := ld.Type().Underlying().(*types.Pointer)
+				if !ok {
+					continue
+				}
+				nt, ok := pt.Elem().(*types.Named)
+				if !ok {
+					continue
+				}
+				var muts []string
+				ms := p.SSA.MethodSets.MethodSet(ld.Type())
+				for i := 0; i < ms.Len(); i++ {
+					m := p.SSA.MethodValue(ms.At(i))
+					if m == nil || m.Blocks == nil {
+						continue
+					}
+					for _, w := range mod.of(m) {
+						if w.Root == "param#0" && !w.Sync {
+							muts = append(muts, m.Name())
+							break
+						}
+					}
+				}
+				fmt.Printf("SHAREDPTR %s: %s returns field %s (*%s) mutators=%v\n", p.pos(ret.Pos()), fname(f), fieldName(fa), nt.Obj().Name(), muts)
+			}
+		}
+	}
+}
+
+// surveyReader: functions with an io.Reader parameter that they never use.
+func surveyReader(p *Program) {
+	n := 0
+	for f := range p.AllFuncs {
+		if f.Blocks == nil || !isCirclFunc(f) || f.Synthetic != "" || f.Parent() != nil {
+			continue
+		}
+		for _, par := range f.Params {
+			if par.Type().String() != "io.Reader" {
+				continue
+			}
+			n++
+			if len(*par.Referrers()) == 0 {
+				fmt.Printf("READER unused %s: %s param %q\n", p.fnPos(f), fname(f), par.Name())
+			}
+		}
+	}
+	fmt.Printf("READER total=%d\n", n)
+}
+
+// surveyErrDrop: calls whose error result is discarded while another result of the same call is used.
+func surveyErrDrop(p *Program) {
+	errT := types.Universe.Lookup("error").Type()
+	n := 0
+	for f := range p.AllFuncs {
+		if f.Blocks == nil || !isCirclFunc(f) || f.Synthetic != "" {
+			continue
+		}
+		for _, b := range f.Blocks {
+			for _, in := range b.Instrs {
+				call, ok := in.(*ssa.Call)
+				if !ok {
+					continue
+				}
+				tup, ok := call.Type().(*types.Tuple)
+				if !ok || tup.Len() < 2 || !types.Identical(tup.At(tup.Len()-1).Type(), errT) {
+					continue
+				}
+				n++
+				errUsed, otherUsed := false, false
+				for _, r := range *call.Referrers() {
+					if ex, ok := r.(*ssa.Extract); ok {
+						if ex.Index == tup.Len()-1 {
+							errUsed = len(*ex.Referrers()) > 0
+						} else if len(*ex.Referrers()) > 0 {
+							otherUsed = true
+						}
+					}
+				}
+				if !errUsed && otherUsed {
+					fmt.Printf("ERRDROP %s: %s: %s\n", p.pos(call.Pos()), fname(f), p.staticCalleeName(&call.Call))
+				}
+			}
+		}
+	}
+	fmt.Printf("ERRDROP total=%d\n", n)
 }
